@@ -525,18 +525,37 @@ func (p *C09) genNonsense(r *model.Rand) (*nonsense, []string) {
 		if mode == "syllable" {
 			return mk("unsupported-key", "text", 0, textStep(mode, "", pre+head+"[1]{key="+k+"}"+post, seed))
 		}
-		a, b := pipe(pre + head + "[1]{key=" + k + "}" + post)
+		carrier := head
+		if r.Chance(1, 3) {
+			carrier = "R"
+			if pre == "" && post == "" {
+				post = " " + head + "[1]"
+			}
+		}
+		a, b := pipe(pre + carrier + "[1]{key=" + k + "}" + post)
 		return mk("unsupported-key", "text", -1, a, b) // either stage may refuse
 	case 14:
 		k := model.Pick(r, model.UnsupportedKeys)
-		return mk("unsupported-key", "yaml", 0, writeStep(wcmd, yamlPre+"- chord:\n    degree: \"1\"\n    name: \"\"\n  values:\n    - \"1\"\n  key: \""+k+"\"\n"+yamlPost, seed))
+		inst := "- chord:\n    degree: \"1\"\n    name: \"\"\n  values:\n    - \"1\"\n  key: \"" + k + "\"\n"
+		if r.Chance(1, 2) {
+			// the key arrives on a rest
+			inst = "- values:\n    - \"1\"\n  key: \"" + k + "\"\n"
+			if yamlPre == "" && yamlPost == "" {
+				yamlPost = goodInst
+			}
+		}
+		return mk("unsupported-key", "yaml", 0, writeStep(wcmd, yamlPre+inst+yamlPost, seed))
 	case 15:
 		k := model.Pick(r, model.UnsupportedKeys)
 		switch r.Intn(4) {
 		case 0:
 			return mk("unsupported-key", "flag", 0, textStep("syllable", k, "C[1]", seed))
 		case 1:
-			return mk("unsupported-key", "flag", 0, writeStep(append(wcmd, "--key", k), goodInst+yamlPost, seed))
+			doc := goodInst + yamlPost
+			if r.Chance(1, 2) {
+				doc = "- values:\n    - \"1\"\n" + goodInst // the piece starts with a rest
+			}
+			return mk("unsupported-key", "flag", 0, writeStep(append(wcmd, "--key", k), doc, seed))
 		case 2:
 			return mk("unsupported-key", "flag", 0, Step{Step: simrt.Step{Argv: []string{"info", "key", "describe", "--key", k}, Seed: seed}})
 		default:
@@ -544,6 +563,13 @@ func (p *C09) genNonsense(r *model.Rand) (*nonsense, []string) {
 		}
 	case 16:
 		txt := model.Pick(r, []string{"C[1] 1[1]", "1[1] C[1]", "C/1[1]", "1/C[1]", "C[1] G[1] 5[1]", "2m[1] R[1] Dm[1]"})
+		if r.Chance(1, 3) {
+			// a long tail after the offending chord (more nodes than any buffer between stages holds)
+			txt += " " + strings.Repeat(model.Pick(r, []string{"C[1] ", "1[1] ", "G_7/B[1,1/2]{txt=x} "}), 30+r.Intn(300))
+		}
+		if r.Chance(1, 6) {
+			txt = strings.Repeat("C[1] ", 30+r.Intn(300)) + txt
+		}
 		return mk("mixed-notation", "text", 0, textStep(mode, "", txt, seed))
 	case 17:
 		txt := model.Pick(r, []string{"", " ", "\n", "; only a comment\n", "\t\n ; c\n"})
